@@ -26,8 +26,31 @@ DTS = ["b1", "i8", "u1", "f4", "f8", "c8", "c16", ">f8", ">c8"]  # (the last two
 G.DT.setdefault("i2", np.int16)
 G.DT.setdefault(">f8", np.dtype(">f8"))
 G.DT.setdefault(">c8", np.dtype(">c8"))
-ARR1 = ["s", "s_dask"]
-ARR2 = ["ss", "sa", "as", "sk", "ks", "sq", "qs", "out", "out_tuple", "ss_dask", "s0d", "bcast"]
+ARR1 = ["s", "s_dask", "out_partial"]
+ARR2 = ["ss", "sa", "as", "sk", "ks", "sq", "qs", "out", "out_tuple", "ss_dask", "s0d", "bcast", "out_partial"]
+SUBCLASS = {"Signal": "RadioSignal", "RadioSignal": "IntensitySignal", "IntensitySignal": "FullStokesSignal", "BasebandSignal": "DualPolarizationSignal"}
+
+
+def partial_out(pb, f, cls, args, first, outs, what):
+    """two-output ufunc with ONE of its outputs supplied -- a signal of a strict subclass of the first operand's class (NumPy then dispatches
+    to the subclass instance): the supplied output is written and returned as it is, the other one is wrapped like the first signal operand"""
+    sub = SUBCLASS.get(cls)
+    for pos in (0, 1):
+        e = outs[pos]
+        tcls = sub if (sub and admits(sub, e.dtype) and e.ndim >= {"RadioSignal": 2, "IntensitySignal": 2, "FullStokesSignal": 3,
+                                                                    "DualPolarizationSignal": 3}[sub]
+                       and (sub not in ("FullStokesSignal",) or e.shape[2:3] == (4,)) and (sub != "DualPolarizationSignal" or e.shape[2:3] == (2,))) else cls
+        t = mk_sig(pb, tcls, np.zeros_like(e), 2)
+        before, buf = attrs(t), t.data
+        out = (t, None) if pos == 0 else (None, t)
+        with lib(what + " out=%s" % (("given", None) if pos == 0 else (None, "given"),)):
+            r = f(*args, out=out)
+        check(isinstance(r, tuple) and len(r) == 2, "{}: two-output ufunc with a partial out= returned {}", what, type(r).__name__)
+        check(r[pos] is t and t.data is buf and same_bits(t.data, e) and same_attrs(attrs(t), before), "{}: the supplied output (position {}) was not "
+              "written into and returned with its own metadata", what, pos)
+        check_result(pb, r[1 - pos], outs[1 - pos], first, what + " [output %d, not supplied; output %d is a %s]" % (1 - pos, pos, tcls))
+    return "ok"
+
 
 
 def base_data(dt, shape=(4, 3), salt=0):
@@ -112,6 +135,8 @@ def one_ufunc_case(pb, f, dt, arr, cls, stt=None):
             if not all(admits(cls, o.dtype) for o in outs) or not admits(cls, x.dtype):
                 return "skip:class_dtype"
             a = mk_sig(pb, cls, x.copy(), 0, dask)
+            if arr == "out_partial":
+                return partial_out(pb, f, cls, (a,), a, outs, what) if f.nout == 2 else "skip:single_output"
             with lib(what):
                 r = f(a)
             rs = r if isinstance(r, tuple) else (r,)
@@ -134,7 +159,7 @@ def one_ufunc_case(pb, f, dt, arr, cls, stt=None):
             if q is None:
                 return "skip:quantity_ufunc"
         ops = {"ss": (x, y), "ss_dask": (x, y), "sa": (x, y), "as": (y, x), "sk": (x, k), "ks": (k, x), "sq": (x, None), "qs": (None, x),
-               "out": (x, y), "out_tuple": (x, y), "s0d": (x, np.array(k)), "bcast": (x, y[:1])}[arr]
+               "out": (x, y), "out_tuple": (x, y), "s0d": (x, np.array(k)), "bcast": (x, y[:1]), "out_partial": (x, y)}[arr]
         raw = tuple(q if o is None else o for o in ops)
         try:
             exp = f(*raw)
@@ -167,6 +192,8 @@ def one_ufunc_case(pb, f, dt, arr, cls, stt=None):
             args, first = (a, y[:1].copy()), a
         else:
             args, first = (a, b), a
+        if arr == "out_partial":
+            return partial_out(pb, f, cls, (a, b), a, outs, what) if f.nout == 2 else "skip:single_output"
         if arr in ("out", "out_tuple"):
             tg = [mk_sig(pb, cls, np.zeros_like(o), 2) for o in outs]
             before = [attrs(t) for t in tg]
